@@ -54,8 +54,23 @@ fn any_float_kind() -> FloatKind {
 
 #[derive(Clone, Copy, PartialEq, Eq)]
 enum K {
-    Void, NullPtr, Int, Float, Complex, Pointer, Reference, Array, Vector, Alias, BlockPointer,
-    ResolvedTypeRef, TypeParam, Opaque, ObjCId, ObjCSel, Enum,
+    Void,
+    NullPtr,
+    Int,
+    Float,
+    Complex,
+    Pointer,
+    Reference,
+    Array,
+    Vector,
+    Alias,
+    BlockPointer,
+    ResolvedTypeRef,
+    TypeParam,
+    Opaque,
+    ObjCId,
+    ObjCSel,
+    Enum,
 }
 
 /// every TypeKind that can be built without a libclang handle
@@ -66,7 +81,14 @@ fn any_simple_kind() -> (K, TypeKind) {
     match k {
         0 => (K::Void, TypeKind::Void),
         1 => (K::NullPtr, TypeKind::NullPtr),
-        2 => (K::Int, TypeKind::Int(if kani::any() { IntKind::Int } else { IntKind::U8 })),
+        2 => (
+            K::Int,
+            TypeKind::Int(if kani::any() {
+                IntKind::Int
+            } else {
+                IntKind::U8
+            }),
+        ),
         3 => (K::Float, TypeKind::Float(any_float_kind())),
         4 => (K::Complex, TypeKind::Complex(any_float_kind())),
         5 => (K::Pointer, TypeKind::Pointer(t)),
@@ -80,7 +102,10 @@ fn any_simple_kind() -> (K, TypeKind) {
         13 => (K::Opaque, TypeKind::Opaque),
         14 => (K::ObjCId, TypeKind::ObjCId),
         15 => (K::ObjCSel, TypeKind::ObjCSel),
-        _ => (K::Enum, TypeKind::Enum(crate::ir::enum_ty::Enum::new(None, Vec::new()))),
+        _ => (
+            K::Enum,
+            TypeKind::Enum(crate::ir::enum_ty::Enum::new(None, Vec::new())),
+        ),
     }
 }
 
@@ -91,7 +116,16 @@ fn any_simple_kind() -> (K, TypeKind) {
 // the Manually tier.
 fn simple_oracle(t: DeriveTrait, k: K) -> CanDerive {
     match (t, k) {
-        (DeriveTrait::Default, K::Void | K::NullPtr | K::Enum | K::Reference | K::TypeParam | K::ObjCId | K::ObjCSel) => CanDerive::No,
+        (
+            DeriveTrait::Default,
+            K::Void
+            | K::NullPtr
+            | K::Enum
+            | K::Reference
+            | K::TypeParam
+            | K::ObjCId
+            | K::ObjCSel,
+        ) => CanDerive::No,
         (DeriveTrait::Hash, K::Float | K::Complex) => CanDerive::No,
         _ => CanDerive::Yes,
     }
@@ -105,16 +139,33 @@ pub(crate) fn table_simple() {
     // TypeKind's drop glue walks CompInfo/FunctionSig containers (unbounded loops for CBMC);
     // nothing here owns heap memory except the empty Vec of K::Enum
     core::mem::forget(kind);
-    assert!(got == simple_oracle(t, k), "postcondition: can_derive_simple == rule table");
+    assert!(
+        got == simple_oracle(t, k),
+        "postcondition: can_derive_simple == rule table"
+    );
 }
 
 #[kani::proof]
 pub(crate) fn table_pointer_vector() {
     let t = any_trait();
     // pointers: everything but Default
-    assert!(t.can_derive_pointer() == if t == DeriveTrait::Default { CanDerive::No } else { CanDerive::Yes });
+    assert!(
+        t.can_derive_pointer()
+            == if t == DeriveTrait::Default {
+                CanDerive::No
+            } else {
+                CanDerive::Yes
+            }
+    );
     // SIMD vectors: everything but PartialOrd (shared with PartialEq)
-    assert!(t.can_derive_vector() == if t == DeriveTrait::PartialEqOrPartialOrd { CanDerive::No } else { CanDerive::Yes });
+    assert!(
+        t.can_derive_vector()
+            == if t == DeriveTrait::PartialEqOrPartialOrd {
+                CanDerive::No
+            } else {
+                CanDerive::Yes
+            }
+    );
 }
 
 #[kani::proof]
@@ -123,12 +174,17 @@ pub(crate) fn table_compound() {
     // Rust unions: nothing but Copy
     assert!(t.can_derive_union() == (t == DeriveTrait::Copy));
     // a destructor rules out Copy only; a vtable rules out Default only
-    assert!(t.can_derive_compound_with_destructor() == (t != DeriveTrait::Copy));
+    assert!(
+        t.can_derive_compound_with_destructor() == (t != DeriveTrait::Copy)
+    );
     assert!(t.can_derive_compound_with_vtable() == (t != DeriveTrait::Default));
     // forward declarations: only (an opaque) Debug
     assert!(t.can_derive_compound_forward_decl() == (t == DeriveTrait::Debug));
     // incomplete arrays: not Copy, Hash, PartialEq/PartialOrd
-    assert!(t.can_derive_incomplete_array() == matches!(t, DeriveTrait::Debug | DeriveTrait::Default));
+    assert!(
+        t.can_derive_incomplete_array()
+            == matches!(t, DeriveTrait::Debug | DeriveTrait::Default)
+    );
 }
 
 macro_rules! table_fnptr {
@@ -142,7 +198,9 @@ macro_rules! table_fnptr {
             // property: ">12-argument function pointers" give Manually for Debug, No for
             // Hash/PartialEq, and stay derivable for Copy/Default
             let want = match (t, ok) {
-                (DeriveTrait::Copy | DeriveTrait::Default, _) | (_, true) => CanDerive::Yes,
+                (DeriveTrait::Copy | DeriveTrait::Default, _) | (_, true) => {
+                    CanDerive::Yes
+                }
                 (DeriveTrait::Debug, false) => CanDerive::Manually,
                 (_, false) => CanDerive::No,
             };
@@ -165,9 +223,18 @@ pub(crate) fn tables_canary() {
     let (k, kind) = any_simple_kind();
     let r = t.can_derive_simple(&kind);
     core::mem::forget(kind);
-    kani::cover!(r == CanDerive::No && t == DeriveTrait::Hash, "Hash refused for a float");
-    kani::cover!(r == CanDerive::No && k == K::Enum, "Default refused for an enum");
-    kani::cover!(r == CanDerive::Yes && k == K::Pointer, "pointer passes can_derive_simple");
+    kani::cover!(
+        r == CanDerive::No && t == DeriveTrait::Hash,
+        "Hash refused for a float"
+    );
+    kani::cover!(
+        r == CanDerive::No && k == K::Enum,
+        "Default refused for an enum"
+    );
+    kani::cover!(
+        r == CanDerive::Yes && k == K::Pointer,
+        "pointer passes can_derive_simple"
+    );
 }
 
 // ---------------------------------------------------------------- C07 (ii) for CannotDerive
@@ -178,11 +245,20 @@ pub(crate) fn tables_canary() {
 pub(crate) fn cannot_derive_reads_are_subscribed() {
     let t = any_trait();
     let k = any_edge_kind();
-    let reads = (t.consider_edge_comp())(k) || (t.consider_edge_typeref())(k) || (t.consider_edge_tmpl_inst())(k);
+    let reads = (t.consider_edge_comp())(k)
+        || (t.consider_edge_typeref())(k)
+        || (t.consider_edge_tmpl_inst())(k);
     assert!(!reads || consider_edge_default(k));
     // and the reads are exactly what the Verus `edges` unit assumes as read-set (non-PartialEq traits)
     if t != DeriveTrait::PartialEqOrPartialOrd {
-        let want = matches!(k, EdgeKind::BaseMember | EdgeKind::Field | EdgeKind::TypeReference | EdgeKind::TemplateArgument | EdgeKind::TemplateDeclaration);
+        let want = matches!(
+            k,
+            EdgeKind::BaseMember
+                | EdgeKind::Field
+                | EdgeKind::TypeReference
+                | EdgeKind::TemplateArgument
+                | EdgeKind::TemplateDeclaration
+        );
         assert!(reads == want);
     }
 }
